@@ -21,6 +21,15 @@ E2 bounded enumeration on the real Element / Substance / Material classes.
              for w with its own amounts.  Reads with a component selection (data_matter / data_composite, both
              `quantity` flags) are made between the steps of every history.
 
+  live pool  TWO density-carrying objects alive at the same time (every ordered pair, twins included, of Element B,
+             Substance H2O, Substance Ca(OH)2, Material by number fractions, Material by mass fractions; each object
+             either {rho given, no volume} or {n given, volume}; the two objects hold different density values and
+             volumes), both constructed BEFORE anything is read; then every schedule of 0..2 (thorough 3) steps
+             from {read object i, add-existing on object i, add-new on object i} (i = 0, 1), then both objects are
+             read (full read-out, then every selection).  Every read must satisfy O1-O5 for the amounts of the
+             object that was asked: nothing a read or a modification of one object does may reach the other one.
+             Class-level containers of the materials classes are restored between cases.
+
   selection  every selection (each single component, each pair) of data_matter() and data_composite(): exactly the
              selected rows, every column equal to the row of the full table (static cases with the first density
              value in canonical units, and the final object of every history).
@@ -49,7 +58,9 @@ LEVEL = "exploration"
 RULE = ("a case is one (composite, input form, isotope mode, given density kind/value/unit, volume value/unit); all "
         "distinct by construction; every case is non-trivial (a density is always attached); cases written in a "
         "non-canonical unit are additionally compared with the canonical spelling of the same physical input; "
-        "history: every (start composite, isotope mode, given density, volume, add() sequence), none pruned")
+        "history: every (start composite, isotope mode, given density, volume, add() sequence), none pruned; "
+        "live pool: every (ordered pair of composites, per-object configuration, isotope mode, schedule of reads / "
+        "add() calls on either object), none pruned")
 ASSUMPTIONS = [
     "component masses are those the object reports (C10); the Dalton in grams is read from the unit table row 'Da'",
     "unit spellings are related by exact decimal factors (kg/m3 = 1e-3 g/cm3, kg/l = g/cm3, m-3 = 1e-6 cm-3, "
@@ -134,22 +145,47 @@ OPERAND_PARTNERS = {      # the other operand a (no density): sharing a componen
 }
 ODEPTH = dict(quick=1, thorough=2)
 
+# several density-carrying objects ALIVE AT THE SAME TIME: the statement speaks about each object's own densities,
+# so whatever is read from / done to one object must not reach the other one.  Object 0 and object 1 of a pool hold
+# different density values and volumes (a table of the other object is then numerically wrong for the one asked).
+LIVE_COMPOSITES = ["element:B", "substance:H2O:str", "substance:Ca(OH)2:dict", "material:number:dict",
+                   "material:mass:str"]
+LIVE_CONFIGS = {"rho": ("rho", False), "n+V": ("n", True)}          # name -> (given kind, volume attached)
+LIVE_VALUES = [dict(rho=0.997, n=1e22, vol=2.5), dict(rho=19.3, n=2.5e19, vol=1.0)]     # by position in the pool
+LIVE_ADDS = {          # step name -> index into HIST_OPS[class]
+    "add-existing": 0, "add-new": 2,
+}
+LDEPTH = dict(quick=2, thorough=3)
+LIVE_NATURAL = dict(quick=[True], thorough=[True, False])
+
 _DA = None
+
+
+def _live_classes():
+    from scinumtools.materials import Element, Substance, Material
+    from scinumtools.materials.matter import Matter
+    from scinumtools.materials.composite import Composite, Component
+    return [Matter, Composite, Component, Element, Substance, Material]
 
 
 def init_worker():
     global _DA
-    from ..isolation import tables_snapshot
+    from ..isolation import tables_snapshot, class_state_snapshot
     from scinumtools.units.settings import UNIT_STANDARD
     tables_snapshot()
+    class_state_snapshot(_live_classes())
     _DA = UNIT_STANDARD["Da"].magnitude          # grams (the table's base mass unit is the gram)
     if UNIT_STANDARD["g"].magnitude != 1.0:
         raise HarnessError("unit table: gram is not the base mass unit")
 
 
 def _restore():
-    from ..isolation import tables_restore
+    """between cases: unit tables and every class-level container / mutable default of the materials classes are
+    put back, so that a case never depends on what ran before it in the same worker (a case that needs such a
+    state creates it itself: live pool)"""
+    from ..isolation import tables_restore, class_state_restore
     tables_restore()
+    class_state_restore()
 
 
 def _build(cid, natural, kind, value, unit, vol, vunit):
@@ -408,6 +444,82 @@ def check_history(cid, natural, kind, value, vol, history):
     return None, amounts
 
 
+def _live_steps(pair):
+    """the schedule alphabet of a pool: read / add-existing / add-new on object 0 or 1 (an Element has no add())"""
+    steps = []
+    for i, cid in enumerate(pair):
+        steps.append(["read", i])
+        if COMPOSITES[cid][0] != "Element":
+            steps.extend([name, i] for name in LIVE_ADDS)
+    return steps
+
+
+def _live_schedules(pair, depth):
+    steps = _live_steps(pair)
+    for n in range(0, depth + 1):
+        for sched in itertools.product(steps, repeat=n):
+            yield [list(s) for s in sched]
+
+
+def check_live(pair, configs, natural, schedule):
+    """two density-carrying objects alive at the same time; every read of either must satisfy O1-O5 for ITS amounts"""
+    pair, configs = list(pair), list(configs)
+    case = dict(live=pair, configs=configs, natural=natural, schedule=schedule)
+    classes = [COMPOSITES[c][0] for c in pair]
+    tags = ["live-pool", "classes:" + "+".join(classes), "configs:" + "+".join(configs),
+            "twin" if pair[0] == pair[1] else ("same-class" if classes[0] == classes[1] else "different-class"),
+            "natural" if natural else "abundant", "schedule=%d" % len(schedule)] + \
+           sorted(set("step:" + s[0] for s in schedule))
+    given = []
+    for i, cfg in enumerate(configs):
+        kind, has_vol = LIVE_CONFIGS[cfg]
+        given.append((kind, LIVE_VALUES[i][kind], LIVE_VALUES[i]["vol"] if has_vol else None))
+    full = schedule + [["read", 0], ["read", 1], ["select", 0], ["select", 1]]
+    progress = [None]
+
+    def run():
+        objs = []
+        for cid, (kind, value, vol) in zip(pair, given):
+            objs.append(_build(cid, natural, kind, value, "g/cm3" if kind == "rho" else "cm-3", vol,
+                               "l" if vol is not None else None))
+        amounts = [dict(COMPOSITES[cid][3]) for cid in pair]
+        for si, (name, i) in enumerate(full):
+            progress[0] = (si, name, i)
+            cid = pair[i]
+            kind, value, vol = given[i]
+            if name == "read":
+                obs_ = _observe(cid, objs[i], vol is not None, amounts[i])
+                bad_ = _relations(cid, kind, value, vol, obs_, amounts[i])
+            elif name == "select":
+                bad_ = None
+                if COMPOSITES[cid][0] != "Element":
+                    bad_ = _selection_reads(objs[i], list(amounts[i]))
+            else:
+                op = HIST_OPS[COMPOSITES[cid][0]][LIVE_ADDS[name]]
+                objs[i].add(op[1], op[2])
+                amounts[i] = R.model_apply(amounts[i], op)
+                bad_ = None
+            if bad_:
+                return bad_
+        return None
+    o = outcome(run)
+
+    def where():
+        si, name, i = progress[0] if progress[0] else (-1, "construct", -1)
+        prev = full[si - 1] if si > 0 else None
+        t = ["at:" + name, "at-object=%d" % i,
+             "previous:" + ("none" if prev is None else prev[0] + ("-same" if prev[1] == i else "-other"))]
+        return t, dict(step=si, op=name, object=i)
+    if o[0] == "err":
+        t, w = where()
+        return failure("live", case, dict(w, expected="executed and tabulated"), list(o), tags + t,
+                       "live-pool:raises:" + o[1])
+    if o[1]:
+        t, w = where()
+        return failure("live", case, dict(w, expected=o[1][1]), o[1][2], tags + t, "live-pool:" + o[1][0])
+    return None
+
+
 def _cases(cid, natural):
     for kind, values, units in (("rho", RHO_VALUES, RHO_UNITS), ("n", N_VALUES, N_UNITS)):
         for value in values:
@@ -425,11 +537,35 @@ def plan(tier, seed):
             for kind, value in HIST_GIVEN:
                 shards.append(("history", cid, nat, kind, value, HDEPTH[tier]))
                 shards.append(("operand", cid, nat, kind, value, ODEPTH[tier]))
+    for a in LIVE_COMPOSITES:
+        for b in LIVE_COMPOSITES:
+            for nat in LIVE_NATURAL[tier]:
+                shards.append(("live", a, b, nat, LDEPTH[tier]))
     return shards
 
 
 def run_shard(desc):
     sh = Shard(PROPERTY)
+    if desc[0] == "live":
+        _, a, b, nat, depth = desc
+        for ca in LIVE_CONFIGS:
+            for cb in LIVE_CONFIGS:
+                for sched in _live_schedules((a, b), depth):
+                    bad = check_live((a, b), (ca, cb), nat, sched)
+                    sh.evaluations += 1
+                    sh.nontrivial += 1
+                    sh.transitions += len(sched) + 4
+                    sh.traces += 1
+                    sh.count("live:schedule=%d" % len(sched))
+                    for st in sched:
+                        sh.count("live:step:" + st[0])
+                    sh.count("live:" + ("twin" if a == b else "distinct"))
+                    if bad:
+                        sh.fail(bad)
+                    _restore()
+                    if len(sched) == 2 and len(sh.samples) < 1:
+                        sh.sample(dict(live=[a, b], configs=[ca, cb], natural=nat, schedule=sched))
+        return sh
     if desc[0] == "operand":
         _, cid, nat, kind, value, depth = desc
         for vol in HIST_VOLUMES:
@@ -485,6 +621,8 @@ def run_shard(desc):
 def replay(rec):
     c = rec["case"]
     try:
+        if "live" in c:
+            return check_live(c["live"], c["configs"], c["natural"], c["schedule"])
         if "form" in c:
             return check_operand(c["composite"], c["natural"], c["kind"], c["value"], c["volume"], c["form"],
                                  c["partner"], c["adds"])
@@ -511,6 +649,10 @@ def finish(total, tier, seed):
     for form in OPERAND_FORMS:
         if not h.get("operand:" + form):
             raise HarnessError("vacuous run: no operand case of form " + form)
+    for key in ["live:twin", "live:distinct", "live:step:read"] + ["live:step:" + k for k in LIVE_ADDS] + \
+            ["live:schedule=%d" % n for n in range(LDEPTH[tier] + 1)]:
+        if not h.get(key):
+            raise HarnessError("vacuous run: no live-pool case of kind " + key)
     hstates = total.sets.get("hstates", set())
     total.states = len(hstates)
     total.max_depth = max(total.sets.get("hdepth", {0}))
@@ -522,6 +664,13 @@ def finish(total, tier, seed):
                             pruning="none (every history executed)"),
         operand_bounds=dict(forms=OPERAND_FORMS, partners=OPERAND_PARTNERS, adds_depth=ODEPTH[tier],
                             adds=HIST_OPS, starts=HIST_STARTS, given=HIST_GIVEN, volume_l=HIST_VOLUMES),
+        live_pool_bounds=dict(objects_alive=2, composites=LIVE_COMPOSITES, pairs="every ordered pair, twins included",
+                              configs_per_object=LIVE_CONFIGS, values_by_position=LIVE_VALUES,
+                              steps=["read"] + list(LIVE_ADDS), on_objects=[0, 1], schedule_depth=LDEPTH[tier],
+                              final="read 0, read 1, every selection of 0, every selection of 1",
+                              isotope_modes=["natural" if n else "abundant" for n in LIVE_NATURAL[tier]],
+                              class_state="restored between cases (mc.isolation.class_state_restore)",
+                              pruning="none (every schedule executed)"),
         bounds=dict(composites=sorted(COMPOSITES), mass_density_g_cm3=RHO_VALUES, mass_density_units=list(RHO_UNITS),
                     number_density_cm3=N_VALUES, number_density_units=list(N_UNITS), volume_l=V_VALUES,
                     volume_units=list(V_UNITS), isotope_modes=["natural", "abundant"]),
@@ -542,7 +691,13 @@ MANIFEST = dict(
          "the steps; and with the density-carrying composite as an operand of +, += and * whose result is then "
          "modified with add() (the operand is re-read). Every selection (each single component, each pair) of "
          "data_matter() and data_composite() must return exactly the selected rows of the full table (static cases "
-         "with the first density value, final object of every history).",
+         "with the first density value, final object of every history). Live pool: two density-carrying objects "
+         "alive at the same time (every ordered pair of 5 composites, twins included, each {rho, no volume} or "
+         "{n, volume}, different values per object), both built before any read, then every schedule of <= 2 "
+         "(thorough 3) steps from {read, add-existing, add-new} x {object 0, object 1}, then both are read in full "
+         "and by every selection: each read must satisfy all relations for the object that was asked (quick: "
+         "natural isotope mode, thorough: both). Class-level state of the materials classes is restored between "
+         "cases, so every reported case reproduces in a fresh process.",
     note="Trusted: component masses reported by the object (C10), the Dalton row of the unit table, exact decimal "
          "factors between the unit spellings. Not covered: N column, avg row, both densities given, in-place "
          "conversion of the caller's Quantity objects.",
